@@ -234,3 +234,15 @@ func GenFrame(rt *rapid.T, kind, cemiKind string) *RFrame {
 
 // AllFrameKinds adds the decode-only services and an unknown service to ServiceKinds.
 var AllFrameKinds = append(append([]string{}, ServiceKinds...), "routinglost", "routingbusy", "unknown")
+
+// GenValidDIBs draws 0..3 well-formed additional description blocks of the types the library keeps
+// as "unknown blocks" (IP config, current IP config, KNX addresses, manufacturer data) and of types
+// it skips.
+func GenValidDIBs(rt *rapid.T) []RDIB {
+	var out []RDIB
+	for i := 0; i < rapid.IntRange(0, 3).Draw(rt, "n-dibs"); i++ {
+		body := GenBytes(rt, "dib-body", 0, 40)
+		out = append(out, RDIB{Len: uint8(2 + len(body)), Type: rapid.SampledFrom([]uint8{3, 4, 5, 0xfe, 0xfe, 6, 0x7f}).Draw(rt, "dib-type"), Body: body})
+	}
+	return out
+}
